@@ -4,6 +4,7 @@
    are re-checked against the current source. *)
 From Coq Require Import QArith Qabs List Bool ZArith String.
 From IPV Require Import C18.Check C18.CheckProofs C18.Search C18.SearchProofs C18.Bits Gen.Gen_C18_bits C18.GenProofs.
+From IPV Require Import C18.Tidy C18.TidyProofs Gen.Gen_C18_tidy C18.TidyGen.
 Import ListNotations.
 
 (* ---------------------------------------------------------------- the verified checker (over Q) *)
@@ -114,3 +115,19 @@ Theorem reported_models_feasible :
   forall a, In a (good (search t_sup t_bad t_min solve nph nsol true range_opt force_mask)) -> fst (solve a) = true.
 Proof. exact reported_models_feasible_gen. Qed.
 Print Assumptions reported_models_feasible.
+
+(* ---------------------------------------------------------------- declared limits reach the rows
+   tidy.cpp: tidy_inverse — an uncertainty declared under -balances by the NAME OF A REDOX-ACTIVE ELEMENT
+   ("S 0.01") is copied onto the mole-balance row of EVERY valence state of that element (rows = (primary
+   element of the row's master species, uncertainty per solution); [run gen_tidy_primary_loop] is the
+   regenerated loop, Gen_C18_tidy.v): every row of the named element receives exactly the declared
+   values, no row is added, dropped or reordered, rows of other elements are untouched. *)
+Theorem gen_tidy_element_limit_reaches_every_valence_state :
+  scanloop_ok gen_tidy_primary_loop = true /\
+  forall (rows : list row) (prim : Z) (vals : list Q),
+    (forall r, In r rows -> List.length (snd r) = List.length vals) ->
+    map fst (run gen_tidy_primary_loop rows prim vals) = map fst rows /\
+    (forall r', In r' (run gen_tidy_primary_loop rows prim vals) -> fst r' = prim -> snd r' = vals) /\
+    (forall r', In r' (run gen_tidy_primary_loop rows prim vals) -> fst r' <> prim -> In r' rows).
+Proof. exact (conj gen_tidy_loop_ok gen_tidy_reaches_every_state). Qed.
+Print Assumptions gen_tidy_element_limit_reaches_every_valence_state.
